@@ -6,6 +6,8 @@ use std::time::Duration;
 
 use bytes::Bytes;
 use futures::{SinkExt, StreamExt};
+use std::cell::RefCell;
+use std::rc::Rc;
 use orion::kdf::SecretKey;
 use proptest::prelude::*;
 use serde::{Deserialize, Serialize};
@@ -1005,4 +1007,135 @@ pub fn wire_verdict(r: &WireResult) -> Option<(String, String, WireAttempt)> {
         }
     }
     None
+}
+
+// ------------------------------------------------------------------------------------ connector
+
+/// The client-side connector of HyperQueue (`ClientSession::connect_to_server`) against a
+/// listener of the harness. `behaviours[i]` is what the listener does with the i-th connection:
+/// 0 close it at once, 1 send garbage and close, 2 an honest server without a key, 3 an honest
+/// server with the client's key, 4 an honest server with another key.
+pub type ConnectorCase = (bool, Vec<u8>);
+
+/// Returns (client result ok, number of connections the listener saw).
+pub fn run_connector_case(case: &ConnectorCase) -> Result<(bool, usize), String> {
+    use hyperqueue::common::serverdir::{ClientAccessRecord, ConnectAccessRecordPart};
+    use hyperqueue::transfer::connection::ClientSession;
+    let (has_key, behaviours) = case.clone();
+    let h = std::thread::Builder::new()
+        .stack_size(16 << 20)
+        .spawn(move || -> Result<(bool, usize), String> {
+            let rt = tokio::runtime::Builder::new_current_thread()
+                .enable_all()
+                .build()
+                .map_err(|e| format!("{e:?}"))?;
+            let local = tokio::task::LocalSet::new();
+            rt.block_on(local.run_until(async move {
+                let listener = tokio::net::TcpListener::bind("127.0.0.1:0")
+                    .await
+                    .map_err(|e| format!("bind: {e:?}"))?;
+                let port = listener.local_addr().map_err(|e| format!("{e:?}"))?.port();
+                let key = Arc::new(SecretKey::from_slice(&[31u8; 32]).unwrap());
+                let other = Arc::new(SecretKey::from_slice(&[32u8; 32]).unwrap());
+                let seen = Rc::new(RefCell::new(0usize));
+                let seen2 = seen.clone();
+                let key2 = key.clone();
+                let server = tokio::task::spawn_local(async move {
+                    let mut keep = Vec::new();
+                    loop {
+                        let Ok((stream, _)) = listener.accept().await else { break };
+                        let i = *seen2.borrow();
+                        *seen2.borrow_mut() += 1;
+                        let b = behaviours.get(i).copied().unwrap_or(0);
+                        match b {
+                            0 => drop(stream),
+                            1 => {
+                                use tokio::io::AsyncWriteExt;
+                                let mut s = stream;
+                                let _ = s.write_all(&[3, 0, 0, 0, 1, 2, 3]).await;
+                                drop(s);
+                            }
+                            _ => {
+                                let k = match b {
+                                    2 => None,
+                                    3 => Some(key2.clone()),
+                                    _ => Some(other.clone()),
+                                };
+                                let (mut w, mut r) = LengthDelimitedCodec::builder()
+                                    .little_endian()
+                                    .max_frame_length(128 * 1024 * 1024)
+                                    .new_framed(stream)
+                                    .split();
+                                let _ = tokio::time::timeout(
+                                    Duration::from_secs(5),
+                                    tako::comm::do_authentication(0, "hq-server", "hq-client", k, &mut w, &mut r),
+                                )
+                                .await;
+                                keep.push((w, r));
+                            }
+                        }
+                    }
+                });
+                let record = ClientAccessRecord {
+                    version: "verif".to_string(),
+                    client: ConnectAccessRecordPart {
+                        host: "127.0.0.1".to_string(),
+                        port,
+                        secret_key: if has_key { Some(key.clone()) } else { None },
+                    },
+                };
+                let res = tokio::time::timeout(
+                    Duration::from_secs(30),
+                    ClientSession::connect_to_server(&record),
+                )
+                .await;
+                server.abort();
+                let n = *seen.borrow();
+                match res {
+                    Err(_) => Err("client did not come back within 30 s".to_string()),
+                    Ok(r) => Ok((r.is_ok(), n)),
+                }
+            }))
+        })
+        .map_err(|e| format!("{e:?}"))?;
+    h.join().map_err(|_| "connector thread panicked".to_string())?
+}
+
+/// Verdict for one case: the client may accept only the connection of an honest server that
+/// proved the client's configuration for that very connection, and it accepts an undisturbed
+/// exchange with such a server.
+pub fn connector_verdict(case: &ConnectorCase, ok: bool, seen: usize) -> Option<(String, String)> {
+    let compatible = if case.0 { 3u8 } else { 2u8 };
+    if ok {
+        let last = if seen == 0 { 255 } else { case.1.get(seen - 1).copied().unwrap_or(0) };
+        if last != compatible {
+            return Some((
+                "client connector accepted a server that did not prove the client's key for this connection".into(),
+                format!("client key: {}, listener behaviours {:?}, accepted on connection #{seen} (behaviour {last})", case.0, case.1),
+            ));
+        }
+    } else if case.1.first() == Some(&compatible) {
+        return Some((
+            "client connector refused an undisturbed exchange with a matching server".into(),
+            format!("client key: {}, listener behaviours {:?}", case.0, case.1),
+        ));
+    }
+    None
+}
+
+/// All behaviour sequences up to length 3 for both client configurations (310 cases).
+pub fn connector_cases() -> Vec<ConnectorCase> {
+    let mut out = Vec::new();
+    for has_key in [true, false] {
+        for a in 0..5u8 {
+            out.push((has_key, vec![a]));
+            for b in 0..5u8 {
+                out.push((has_key, vec![a, b]));
+                for c in 0..5u8 {
+                    out.push((has_key, vec![a, b, c]));
+                }
+            }
+        }
+    }
+    out
 }
